@@ -539,3 +539,124 @@ Example ex_kml_doc :
   KmlDoc (-1800, -900, 1800, 900)
     [(Some (0, 0, 1), (-1800, -900, 0, 900)); (Some (1, 0, 1), (0, -900, 1800, 900))].
 Proof. vm_compute. reflexivity. Qed.
+
+(* ---- WMS-C: requesting exactly the rectangle of a stored tile returns that tile *)
+Lemma zrange_single x : zrange x x = [x].
+Proof. unfold zrange. replace (x + 1 - x) with 1 by lia. change (Z.to_nat 1) with 1%nat. cbn [seq map Z.of_nat]. rewrite Z.add_0_r. reflexivity. Qed.
+
+Lemma div_in_tile a s d : 0 < s -> 0 <= d < s -> (a * s + d) / s = a.
+Proof. intros Hs Hd. apply div_unique_bounds; lia. Qed.
+
+(* the level chosen for a request at exactly the resolution of level l is l *)
+Lemma closest_level_exact g l t :
+  wf g -> decreasing_res g -> valid_level g l = true -> 0 < t -> 0 < sf_d g <= sf_n g ->
+  closest_level g (res_at g l * t) t = l.
+Proof.
+  intros Hwf Hd Hv Ht Hsf. pose proof (res_at_pos g l Hwf Hv) as Hr.
+  assert (Hl : 0 < levels g) by (unfold valid_level in Hv; lia).
+  pose proof (closest_level_spec g (res_at g l * t) t Hd Hl Ht ltac:(nia) Hsf) as Hs.
+  apply (closest_level_spec_unique g (res_at g l * t) t _ l Hs).
+  unfold closest_level_spec_of. split; [unfold valid_level in Hv; lia|]. left. split.
+  - unfold level_within. split; [lia|]. nia.
+  - intros j Hj [Hw _]. pose proof (Hd l j ltac:(unfold valid_level in Hv; lia) ltac:(lia) ltac:(lia)). nia.
+Qed.
+
+Lemma wmsc_tile_rect_served g x y l :
+  wf g -> decreasing_res g -> 0 < sf_d g <= sf_n g -> 0 < shr_d g <= shr_n g ->
+  limit_tile g x y l = Some (x, y, l) -> 10 <= res_at g l ->
+  wmsc_get_map g (tile_bbox g x y l) (tw g) (th g) = WLoaded (x, y, l).
+Proof.
+  intros Hwf Hd Hsf Hshr Hl H10.
+  pose proof (limit_tile_some _ _ _ _ _ Hl) as (_ & Hv & Hx & Hy).
+  pose proof (res_at_pos g l Hwf Hv) as Hr.
+  pose proof (grid_size_cover g l Hwf Hv) as Hc.
+  assert (Hv0 : valid_level g 0 = true) by (unfold valid_level in *; lia).
+  pose proof (res_at_pos g 0 Hwf Hv0) as Hr0.
+  assert (Hr0l : res_at g l <= res_at g 0).
+  { destruct (Z.eq_dec l 0) as [->|]; [lia|].
+    pose proof (Hd 0 l ltac:(lia) ltac:(unfold valid_level in Hv; lia) ltac:(unfold valid_level in Hv; lia)). lia. }
+  assert (Hwf2 := Hwf). destruct Hwf as (Hgx & Hgy & Htw & Hth & Hp).
+  destruct (grid_size g l) as [nx ny] eqn:Eg. cbn [fst snd] in *. cbv zeta in Hc.
+  destruct Hc as (Hnx & Hny & Hcx1 & Hcx2 & Hcy1 & Hcy2).
+  set (r := res_at g l) in *.
+  assert (Hsx : 0 < r * tw g) by nia. assert (Hsy : 0 < r * th g) by nia.
+  assert (Hd10 : 1 <= r / 10 <= r) by lia.
+  assert (Hdx : r / 10 < r * tw g) by nia. assert (Hdy : r / 10 < r * th g) by nia.
+  assert (Hshr2 : r * shr_d g <= res_at g 0 * shr_n g) by nia.
+  assert (Hshr3 : r * tw g * shr_d g <= res_at g 0 * shr_n g * tw g) by nia.
+  unfold wmsc_get_map. rewrite !Z.eqb_refl. cbn [andb negb].
+  (* level *)
+  assert (Hal : affected_level g (tile_bbox g x y l) (tw g) (th g) = Some l).
+  { unfold affected_level, tile_bbox. fold r.
+    destruct (ul g) eqn:U.
+    - unfold bbox_intersects, get_resolution.
+      replace ((gx0 g <? gx0 g + x * r * tw g + r * tw g) && (gx0 g + x * r * tw g <? gx1 g) &&
+               (gy0 g <? gy1 g - y * r * th g) && (gy1 g - y * r * th g - r * th g <? gy1 g)) with true by (symmetry; nia).
+      cbn [negb].
+      replace (Z.abs (gx0 g + x * r * tw g - (gx0 g + x * r * tw g + r * tw g))) with (r * tw g) by lia.
+      replace (Z.abs (gy1 g - y * r * th g - r * th g - (gy1 g - y * r * th g))) with (r * th g) by lia.
+      replace (r * tw g * th g <=? r * th g * tw g) with true by (symmetry; nia).
+      unfold r. rewrite (closest_level_exact g l (tw g)) by (try assumption; lia).
+      fold r. replace (res_at g 0 * shr_n g * tw g <? r * tw g * shr_d g) with false by (symmetry; lia). reflexivity.
+    - unfold bbox_intersects, get_resolution.
+      replace ((gx0 g <? gx0 g + x * r * tw g + r * tw g) && (gx0 g + x * r * tw g <? gx1 g) &&
+               (gy0 g <? gy0 g + y * r * th g + r * th g) && (gy0 g + y * r * th g <? gy1 g)) with true by (symmetry; nia).
+      cbn [negb].
+      replace (Z.abs (gx0 g + x * r * tw g - (gx0 g + x * r * tw g + r * tw g))) with (r * tw g) by lia.
+      replace (Z.abs (gy0 g + y * r * th g - (gy0 g + y * r * th g + r * th g))) with (r * th g) by lia.
+      replace (r * tw g * th g <=? r * th g * tw g) with true by (symmetry; nia).
+      unfold r. rewrite (closest_level_exact g l (tw g)) by (try assumption; lia).
+      fold r. replace (res_at g 0 * shr_n g * tw g <? r * tw g * shr_d g) with false by (symmetry; lia). reflexivity. }
+  rewrite Hal.
+  (* the block is the single tile *)
+  assert (Hcols : aff_cols g (tile_bbox g x y l) l = [x]).
+  { unfold aff_cols, tile_bbox, tile, inset. fold r. destruct (ul g); cbn [fst].
+    - replace (gx0 g + x * r * tw g + r / 10 - gx0 g) with (x * (r * tw g) + r / 10) by ring.
+      replace (gx0 g + x * r * tw g + r * tw g - r / 10 - gx0 g) with (x * (r * tw g) + (r * tw g - r / 10)) by ring.
+      rewrite !div_in_tile by lia. apply zrange_single.
+    - replace (gx0 g + x * r * tw g + r / 10 - gx0 g) with (x * (r * tw g) + r / 10) by ring.
+      replace (gx0 g + x * r * tw g + r * tw g - r / 10 - gx0 g) with (x * (r * tw g) + (r * tw g - r / 10)) by ring.
+      rewrite !div_in_tile by lia. apply zrange_single. }
+  assert (Hrows : aff_rows g (tile_bbox g x y l) l = [y]).
+  { unfold aff_rows, tile_bbox, tile, inset. fold r. destruct (ul g) eqn:U; rewrite ?U; cbn [snd].
+    - replace (gy1 g - (gy1 g - y * r * th g - r * th g + r / 10)) with (y * (r * th g) + (r * th g - r / 10)) by ring.
+      replace (gy1 g - (gy1 g - y * r * th g - r / 10)) with (y * (r * th g) + r / 10) by ring.
+      rewrite !div_in_tile by lia. apply zrange_single.
+    - replace (gy0 g + y * r * th g + r / 10 - gy0 g) with (y * (r * th g) + r / 10) by ring.
+      replace (gy0 g + y * r * th g + r * th g - r / 10 - gy0 g) with (y * (r * th g) + (r * th g - r / 10)) by ring.
+      rewrite !div_in_tile by lia. rewrite zrange_single. reflexivity. }
+  rewrite affected_unfold, Hcols, Hrows. cbn [last length create_tile_list flat_map map app fst snd].
+  rewrite merge_bbox_idem. rewrite Eg. cbn [fst snd].
+  replace (1 <? Z.of_nat 1 * Z.of_nat 1) with false by reflexivity.
+  assert (Hbe : bbox_equals_tenth (tile_bbox g x y l) (tile_bbox g x y l) (tw g) (th g) = true).
+  { unfold bbox_equals_tenth, tile_bbox. fold r. destruct (ul g); lia. }
+  rewrite Hbe. cbn [negb]. unfold tile_or_none.
+  replace ((x <? 0) || (y <? 0) || (nx <=? x) || (ny <=? y)) with false by (symmetry; lia). reflexivity.
+Qed.
+
+(* the rectangles a client derives from the WMS-C TileSet (BoundingBox corner, resolution, tile size) are served
+   with the tile a TMS request for the same (i, j) gets, under the hypotheses of tms_address_exact *)
+Lemma wmsc_advertised_served_l s i j l :
+  wf (sg s) -> decreasing_res (sg s) -> 0 < sf_d (sg s) <= sf_n (sg s) -> 0 < shr_d (sg s) <= shr_n (sg s) ->
+  s_extent s = grid_bbox (sg s) ->
+  (ul (sg s) = false \/ misalign (sg s) l = 0) ->
+  limit_tile (sg s) i j l = Some (i, j, l) -> 10 <= res_at (sg s) l ->
+  wmsc_get_map (sg s) (wmsc_client_rect s (res_at (sg s) l) i j) (tw (sg s)) (th (sg s)) =
+  WLoaded (flip_for (sg s) OSW (i, j, l)).
+Proof.
+  intros Hwf Hd Hsf Hshr He Ha Hl H10.
+  assert (Hrect : wmsc_client_rect s (res_at (sg s) l) i j = tile_bbox_c (sg s) (flip_for (sg s) OSW (i, j, l))).
+  { rewrite flip_for_rect by (cbn [effective_origin]; destruct Ha as [-> | H]; auto).
+    unfold wmsc_client_rect, conv_rect. rewrite He. unfold grid_bbox. cbn [effective_origin]. reflexivity. }
+  rewrite Hrect. pose proof (flip_for_valid (sg s) OSW i j l Hl) as Hv.
+  pose proof (flip_for_level (sg s) OSW i j l) as Hlv.
+  destruct (flip_for (sg s) OSW (i, j, l)) as [[x' y'] l']. cbn [snd] in Hlv. subst l'.
+  cbn [tile_bbox_c]. apply wmsc_tile_rect_served; assumption.
+Qed.
+
+Example ex_wmsc_advertised :
+  wmsc_get_map f8_grid (wmsc_client_rect (mkLayer f8_grid SrsOther false false false 1 1 (0, 0, 10000, 7000) 10) 40 0 0)
+               100 100 = WRefused /\
+  wmsc_get_map ex_ll_unaligned (wmsc_client_rect (mkLayer ex_ll_unaligned SrsOther false false false 1 1 (0, 0, 800, 400) 10) 50 3 3) 4 2
+  = WLoaded (3, 3, 1).
+Proof. split; vm_compute; reflexivity. Qed.
